@@ -247,6 +247,18 @@ class ProgGen(object):
     def gen_let(self):
         r = self.r
         vis = [s for s in self.visible().values() if s.defines is None]
+        if r.random() < 0.3:
+            # re-point a name that has just been used: use, \let, use again -- nothing in between
+            pairs = [(d, s_) for d in vis for s_ in vis if d is not s_ and d.kind == 'def' and s_.kind == 'def' and not d.items and not s_.items
+                     and d.ptext == '' and s_.ptext == '' and s_.rank < d.rank and d.depth == len(self.scopes) - 1]
+            if pairs:
+                d, s_ = r.choice(pairs)
+                sig = Sig(d.name, 'def', d.rank, len(self.scopes) - 1, items=[], glob=False, plain=s_.plain)
+                sig.ptext = ''
+                self.register(sig, False)
+                self.features.add('let-over-used-name')
+                self.calls += 2
+                return '\\%s \\let\\%s%s\\%s \\%s ' % (d.name, d.name, r.choice(['=', '', ' = ']), s_.name, d.name)
         src = r.choice(vis)
         depth = len(self.scopes) - 1
         self.rank += 1
